@@ -369,6 +369,17 @@ func execOp(e *Env, trees map[int]*treeHandle, client, idx int, op Op, y *yielde
 		res.Tree = &treeHandle{node: n, doc: op.Doc, born: idx}
 		res.Err = e.r.Render(w, src, n)
 		res.Tree.renders++
+	case "RenderChild":
+		// Renderer.Render called directly on a subtree (the first top-level block), as callers
+		// that render fragments do
+		n := e.p.Parse(mkReader(op, src, y), parseOpts(op, y)...)
+		c := n.FirstChild()
+		if c == nil {
+			res.Skipped = true
+			return
+		}
+		res.Tree = &treeHandle{node: n, doc: op.Doc, born: idx}
+		res.Err = e.r.Render(w, src, c)
 	case "Render", "RenderPre":
 		t := trees[op.Tree]
 		if t == nil {
@@ -409,8 +420,14 @@ func execOp(e *Env, trees map[int]*treeHandle, client, idx int, op Op, y *yielde
 	default:
 		panic("unknown op " + op.Kind)
 	}
+	if yb, ok := w.(yieldingBuf); ok && yb.s != nil {
+		yb.callerFlush()
+	}
 	if res.Sink != nil {
 		res.Out = res.Sink.acc
+		if n := len(res.Sink.prefix); n > 0 && res.Sink.plan == nil && len(res.Out) >= n {
+			res.Out = res.Out[n:] // fault-free: what goldmark produced, without the caller's header
+		}
 	}
 	return
 }
@@ -532,6 +549,13 @@ func firstLine(s string) string {
 // R is the fault-free output obtained with the same stack.
 func checkFaulted(res *OpResult, R []byte) *Violation {
 	s := res.Sink
+	failedDuringCall := s.errCalls > 0
+	if len(s.prefix) > 0 {
+		// W2p: the sink receives the caller's header first; failures are attributed to the call
+		// only if they happened before goldmark returned (the caller's own flush comes later)
+		R = append(append([]byte{}, s.prefix...), R...)
+		failedDuringCall = s.returned && s.errCallsAtReturn > 0
+	}
 	if res.Panic != "" {
 		return &Violation{Class: "panic", Detail: "panic with a failing writer: " + firstLine(res.Panic), Got: s.acc, Want: R}
 	}
@@ -543,6 +567,14 @@ func checkFaulted(res *OpResult, R []byte) *Violation {
 		}
 		if res.Err == nil && !bytes.Equal(all, R) {
 			return &Violation{Class: "success-but-incomplete", Want: R, Got: all, Detail: "nil error but the writer did not receive the whole output"}
+		}
+		return nil
+	}
+	if s.errCalls > 0 && !failedDuringCall && res.Err == nil {
+		// the destination failed only when the caller flushed its own writer afterwards: what
+		// it accepted must still be a prefix of the page
+		if !bytes.HasPrefix(R, all) {
+			return &Violation{Class: "not-a-prefix", Want: R, Got: all, Detail: "bytes accepted by the destination are not a prefix of header + fault-free output"}
 		}
 		return nil
 	}
